@@ -3,6 +3,7 @@ package main
 import (
 	"fmt"
 	"go/token"
+	"go/types"
 	"regexp"
 	"sort"
 	"strings"
@@ -17,7 +18,7 @@ func init() {
 		run:   runC18,
 		decided: "printf performs exactly one write to the output, of the locally built string, and no error return is reachable after it nor any write before it (so a failing printf writes nothing); the directive table (%% -> '%', %s -> a checked string argument, %f -> a checked number argument, %v -> any argument rendered at top level under an explicit argument-count guard, anything else -> error; a trailing % or width -> error before the byte is read); literal bytes are copied unchanged; padding: the pad count is |width| - len(rendering), computed only under len(rendering) < |width| (never negative, never truncating), on the left for a positive and on the right for a negative width, pad byte '0' exactly when the width text starts with '0'; the width limit test precedes every use of the width; arguments are consumed in order, one per directive." +
 			" The argument index moves on only under %s, %f and %v; call arguments are evaluated into cells of their own; numbers are rendered by FormatFloat(x,'f',-1,64) only." +
-			" A copied argument keeps its kind.",
+			" A copied argument keeps its kind. The argument check hands back the argument itself only when it has the requested kind, and changes nothing.",
 		notDecided: "byte-exact output for every format string (the scanner's index arithmetic is only checked through its guards).",
 	})
 }
@@ -29,7 +30,8 @@ func runC18(c *Ctx) {
 	defer c.shared("R7", "C17/R2", "%f is replaced by the rendering of the number: String() and the renderer produce FormatFloat(x, 'f', -1, 64) and nothing else (no integer fast path)", ruleIs("R2"), runC17)
 	defer c.shared("R6", "C08/R4", "each directive shows the value its argument had when it was evaluated: call arguments (printf's included) are evaluated into cells of their own, so a later argument's side effect cannot change an earlier one", keyHas("call-arguments-copied"), c08R4)
 	p := c.P
-	pf := p.LangFunc("nativePrintf")
+	argumentCheckExact(c, "R9")
+	outerPf, pf, fmtCall := printfFormatter(p)
 	if pf == nil {
 		c.undecided("R1", "nativePrintf", "", "anchor not found")
 		return
@@ -57,7 +59,34 @@ func runC18(c *Ctx) {
 	// R1 single-write-after-validation
 	c.note("R1 single-write-after-validation: nativePrintf contains exactly one call that writes to the evaluator's output (Evaluator.print / fmt.Fprint* on Evaluator.stdout); its argument is the String() of the one local strings.Builder; every return reachable from it is the success return; every error return is unreachable from it.")
 	var writes []ssa.CallInstruction
-	for _, call := range callsIn(pf) {
+	if fmtCall != nil {
+		// the scanner is a helper: it writes nothing itself, its text is what nativePrintf prints, and
+		// the arguments reach it unchanged
+		for _, call := range callsIn(pf) {
+			f := call.Common().StaticCallee()
+			if staticCalleeIs(call, "(*lang.Evaluator).print") || (f != nil && (strings.HasPrefix(f.String(), "fmt.Fp") || strings.HasPrefix(f.String(), "fmt.Print"))) {
+				c.violated("R1", "single-write", p.InstrPos(call), "the format scanner "+shortName(pf)+" writes to the output itself")
+			}
+		}
+		okRes := true
+		for _, rc := range p.successResults(pf) {
+			if sh(effectiveResults(rc.Ret)[0]) != "(*strings.Builder).String(&strings.Builder{})" {
+				okRes = false
+			}
+		}
+		c.check(okRes, "R1", "scanner-result", p.Pos(pf.Pos()), "the scanner returns the String() of its one builder", "a success return of "+shortName(pf)+" is not the locally built string")
+		okArgs := false
+		for i, prm := range pf.Params {
+			if _, isSl := prm.Type().Underlying().(*types.Slice); isSl && i < len(fmtCall.Call.Args) {
+				if q, ok := fmtCall.Call.Args[i].(*ssa.Parameter); ok && q.Parent() == outerPf {
+					okArgs = true
+				}
+			}
+		}
+		c.check(okArgs, "R1", "scanner-arguments", p.InstrPos(fmtCall), "printf's arguments reach the scanner unchanged", "the scanner is not given printf's argument list as it is")
+	}
+	F1 := FactsOf(outerPf)
+	for _, call := range callsIn(outerPf) {
 		if staticCalleeIs(call, "(*lang.Evaluator).print") {
 			writes = append(writes, call)
 			continue
@@ -74,11 +103,22 @@ func runC18(c *Ctx) {
 	} else {
 		w := writes[0]
 		arg := sh(w.Common().Args[len(w.Common().Args)-1])
-		c.check(arg == "(*strings.Builder).String(&strings.Builder{})", "R1", "single-write", p.InstrPos(w), "e.print(sb.String())", "the single write emits "+arg+", not the locally built string")
+		if fmtCall != nil {
+			ex, isEx := w.Common().Args[len(w.Common().Args)-1].(*ssa.Extract)
+			var errV ssa.Value
+			for _, r := range referrersOf(fmtCall) {
+				if e2, ok := r.(*ssa.Extract); ok && e2.Index == 1 {
+					errV = e2
+				}
+			}
+			c.check(isEx && ex.Tuple == ssa.Value(fmtCall) && ex.Index == 0 && errV != nil && F1.At(w.Block()).KnownNil(errV), "R1", "single-write", p.InstrPos(w), "e.print(text of the scanner), after the scanner succeeded", "the single write emits "+arg+", which is not the scanner's text on its success path")
+		} else {
+			c.check(arg == "(*strings.Builder).String(&strings.Builder{})", "R1", "single-write", p.InstrPos(w), "e.print(sb.String())", "the single write emits "+arg+", not the locally built string")
+		}
 		okAfter := true
-		for _, r := range returnsOf(pf) {
+		for _, r := range returnsOf(outerPf) {
 			if canReach(w, r) {
-				if !ek.KindsAt(effectiveResults(r)[1], F.At(r.Block())).Has(KNil) || ek.KindsAt(effectiveResults(r)[1], F.At(r.Block())) != KNil {
+				if !ek.KindsAt(effectiveResults(r)[1], F1.At(r.Block())).Has(KNil) || ek.KindsAt(effectiveResults(r)[1], F1.At(r.Block())) != KNil {
 					okAfter = false
 				}
 			}
@@ -310,6 +350,7 @@ func widthLimit(c *Ctx, rule string) {
 		c.undecided(rule, "nativePrintf", "", "anchor not found")
 		return
 	}
+	_, pf, _ = printfFormatter(p)
 	F := FactsOf(pf)
 	found := false
 	allInstrs(pf, func(in ssa.Instruction) {
@@ -354,4 +395,61 @@ func widthLimit(c *Ctx, rule string) {
 	if !found {
 		c.undecided(rule, "width-variable", p.Pos(pf.Pos()), "no width variable merged from 0 and the parsed width was found")
 	}
+}
+
+// argumentCheckExact: the argument check every directive rests on. It hands back the argument itself
+// exactly when the argument exists and has the requested kind, and it changes nothing: a check that
+// first rewrites an argument of another kind (an unset variable, say) into the requested one makes
+// the wrong kind pass.
+func argumentCheckExact(c *Ctx, rule string) {
+	p := c.P
+	c.note("%s argument-check-exact: checkArg(args, i, tag) returns args[i] — and only under len(args)-1 >= i and args[i].Tag == tag — and stores nothing (it does not coerce the argument into the requested kind).", rule)
+	ca := p.LangFunc("checkArg")
+	if ca == nil {
+		c.undecided(rule, "checkArg", "", "anchor not found")
+		return
+	}
+	c.checkArm(rule, "checkArg", ca, armSpec{
+		Results: []string{"args[index]"}, Effects: []string{},
+		Guards: map[string][]string{"args[index]": {"args[index].Tag == tag"}},
+		Source: "an argument of the wrong kind is a runtime error"})
+}
+
+// printfFormatter: where printf's format scanning lives — nativePrintf itself, or the one helper of
+// its own (called from nowhere else) that returns the text and an error and whose text nativePrintf
+// prints (`s, err := formatPrintf(args); if err != nil { return nil, err }; e.print(s)`).
+func printfFormatter(p *Program) (outer, inner *ssa.Function, call *ssa.Call) {
+	outer = p.LangFunc("nativePrintf")
+	if outer == nil {
+		return nil, nil, nil
+	}
+	inner = outer
+	for _, cs := range callsIn(outer) {
+		cv, ok := cs.(*ssa.Call)
+		if !ok {
+			continue
+		}
+		h := cv.Call.StaticCallee()
+		if h == nil || !p.InLang(h) || h == outer || len(h.Blocks) == 0 || !isPrivateTo(p, h, outer) {
+			continue
+		}
+		res := h.Signature.Results()
+		if res.Len() != 2 || !isErrorType(res.At(1).Type()) {
+			continue
+		}
+		if b, ok := res.At(0).Type().Underlying().(*types.Basic); !ok || b.Kind() != types.String {
+			continue
+		}
+		// the scanner: it is the one that builds the text
+		builds := false
+		for _, hc := range callsIn(h) {
+			if f := hc.Common().StaticCallee(); f != nil && strings.HasPrefix(f.String(), "(*strings.Builder).") {
+				builds = true
+			}
+		}
+		if builds {
+			inner, call = h, cv
+		}
+	}
+	return outer, inner, call
 }
